@@ -101,25 +101,43 @@ Section Replay.
 
   (* the controller's log: it resumed a parked actor, or an actor arrived at a park point on its own
      (a new goroutine, or one released by somebody else's unlock / Done) *)
-  Inductive sevent := Resume (w : who) | Arrive (w : who).
+  (* Resume w b: the controller resumed w; b = it reached another park point within that step (otherwise it
+     blocked or finished).  Arrive w: w reached a park point on its own. *)
+  Inductive sevent := Resume (w : who) (parked_again : bool) | Arrive (w : who).
+
+  (* advance a; if it stops without parking, let goroutines that need no scheduling decision (e.g. Shutdown's
+     waiter) run and try again: within one controller step they all run concurrently *)
+  Fixpoint advance_rounds (rounds fuel : nat) (r : rstate) (a : actor) : rstate :=
+    match rounds with
+    | 0 => r
+    | S k => let '(r1, progressed) := advance_actor fuel r a in
+             if memb a (rs_parked r1) then r1
+             else let r2 := settle_silent 6 fuel r1 in
+                  match mstep P cfg (rs_state r2) a with
+                  | Some _ => advance_rounds k fuel r2 a
+                  | None => r2
+                  end
+    end.
 
   (* returns the final replay state and, if the log could not be followed, the index of the offending event *)
   Fixpoint replay_at (fuel : nat) (r : rstate) (sched : list sevent) (idx : nat) : rstate * option nat :=
     match sched with
     | [] => (settle_silent 6 fuel r, None)
-    | Resume w :: rest =>
+    | Resume w again :: rest =>
       match resolve r w with
       | None => (r, Some idx)
       | Some a =>
         if negb (memb a (rs_parked r)) then (r, Some idx)        (* only parked actors can be resumed *)
-        else let '(r1, _) := advance_actor fuel r a in replay_at fuel (settle_silent 6 fuel r1) rest (S idx)
+        else let r1 := advance_rounds 4 fuel r a in
+             if Bool.eqb (memb a (rs_parked r1)) again then replay_at fuel (settle_silent 6 fuel r1) rest (S idx)
+             else (r1, Some idx)
       end
     | Arrive w :: rest =>
       match resolve r w with
       | None => (r, Some idx)
       | Some a =>
         if memb a (rs_parked r) then (r, Some idx)
-        else let '(r1, _) := advance_actor fuel (settle_silent 6 fuel r) a in
+        else let r1 := advance_rounds 4 fuel (settle_silent 6 fuel r) a in
              if memb a (rs_parked r1) then replay_at fuel (settle_silent 6 fuel r1) rest (S idx) else (r1, Some idx)
       end
     end.
